@@ -119,6 +119,7 @@ func runSysWorker() {
 	nfile := 0
 	wedged := false
 	hasPrefix := false
+	var nns []string // positions in the chain of handlers that returned a nil response without stop, this datagram
 	for sc.Scan() {
 		f := strings.Fields(sc.Text())
 		res := "badop"
@@ -225,6 +226,7 @@ func runSysWorker() {
 				return "ok"
 			})
 		case "sdg4":
+			nns = nil
 			dg := unhx(f[3])
 			parsed := "U"
 			if d, err := dhcpv4.FromBytes(dg); err == nil {
@@ -232,7 +234,7 @@ func runSysWorker() {
 			}
 			r := watchdog(8*time.Second, func() string {
 				return guard(func() string {
-					caps := handleOn4(h4, atoi(f[1]), dg, atoi(f[2]), &net.UDPAddr{IP: net.IPv4(192, 0, 2, 1), Port: 68})
+					caps := handleOn4(noteNilNoStop4(h4, &nns), atoi(f[1]), dg, atoi(f[2]), &net.UDPAddr{IP: net.IPv4(192, 0, 2, 1), Port: 68})
 					if len(caps) == 0 {
 						return "drop"
 					}
@@ -259,7 +261,11 @@ func runSysWorker() {
 				})
 			})
 			res = parsed + " ; " + r
+			if len(nns) > 0 {
+				res += " ; nns " + strings.Join(nns, " ")
+			}
 		case "sdg6":
+			nns = nil
 			dg := unhx(f[4])
 			parsed := "U"
 			pdOracle := ""
@@ -278,7 +284,7 @@ func runSysWorker() {
 			}
 			r := watchdog(8*time.Second, func() string {
 				return guard(func() string {
-					caps := handleOn6(h6, atoi(f[1]), dg, atoi(f[2]), &net.UDPAddr{IP: net.IP(unhx(f[3])), Port: 546})
+					caps := handleOn6(noteNilNoStop6(h6, &nns), atoi(f[1]), dg, atoi(f[2]), &net.UDPAddr{IP: net.IP(unhx(f[3])), Port: 546})
 					if len(caps) == 0 {
 						return "drop"
 					}
@@ -305,6 +311,9 @@ func runSysWorker() {
 				})
 			})
 			res = parsed + " ; " + r + pdOracle
+			if len(nns) > 0 {
+				res += " ; nns " + strings.Join(nns, " ")
+			}
 		}
 		if strings.HasSuffix(res, "HANG") {
 			wedged = true
@@ -677,4 +686,36 @@ func genSys(c *ctx) {
 		}
 		runSysGroup(c, group)
 	}
+}
+
+// noteNilNoStop4/6 wrap every handler of a chain: a built-in handler returns a nil response only together with stop
+// (C13, last sentence); the position of one that does not is noted - the handler behind it usually dereferences the nil.
+func noteNilNoStop4(hs []handler.Handler4, nns *[]string) []handler.Handler4 {
+	out := make([]handler.Handler4, len(hs))
+	for i, h := range hs {
+		i, h := i, h
+		out[i] = func(req, resp *dhcpv4.DHCPv4) (*dhcpv4.DHCPv4, bool) {
+			r, stop := h(req, resp)
+			if r == nil && !stop {
+				*nns = append(*nns, fmt.Sprint(i))
+			}
+			return r, stop
+		}
+	}
+	return out
+}
+
+func noteNilNoStop6(hs []handler.Handler6, nns *[]string) []handler.Handler6 {
+	out := make([]handler.Handler6, len(hs))
+	for i, h := range hs {
+		i, h := i, h
+		out[i] = func(req, resp dhcpv6.DHCPv6) (dhcpv6.DHCPv6, bool) {
+			r, stop := h(req, resp)
+			if r == nil && !stop {
+				*nns = append(*nns, fmt.Sprint(i))
+			}
+			return r, stop
+		}
+	}
+	return out
 }
